@@ -50,6 +50,17 @@ def result(unit, t0):
 # =====================================================================================
 # faithful (C01, C06 for the pp productions, C08 for the concat-chain unwraps)
 # =====================================================================================
+# the arms of preprocess_str are verified against the grammar invariant of the pp tree (every node has its leaves in source order,
+# contiguous, inside the text; A-glue): for the productions the preprocessor's tree is built from, faithfulness is a premise of every
+# arms-based property
+PP_TREE_PROPS = ['C06', 'C03', 'C04', 'C05', 'C10', 'C11', 'C18']
+PP_FILES = ('general/compiler_directives.rs', 'general/comments.rs', 'expressions/strings.rs', 'general/identifiers.rs', 'utils.rs', 'preprocessor')
+
+
+def pp_production(f):
+    return any(x in f.file for x in PP_FILES)
+
+
 def faithful_run(tier='quick'):
     t0 = time.time()
     fns, table, comb = collect()
@@ -153,7 +164,7 @@ def faithful_run(tier='quick'):
             continue
         name, lab, f = hit
         res['failures'].append(dict(fn=name, kind='generated lemma not provable: ' + d['message'], label='faithful.%s.%s' % (name, lab),
-                                    props=['C01', 'C08', 'C16'] + (['C06'] if 'compiler_directives' in f.file or 'preprocessor' in f.file else []),
+                                    props=['C01', 'C08', 'C16'] + (PP_TREE_PROPS if pp_production(f) else []),
                                     repo='%s:%d' % (f.file, f.line), spec='build/grammar_vcs.rs:%d' % prim[0]['line_start'],
                                     snippet=lines[prim[0]['line_start'] - 1].strip()[:300], notes=[]))
     if res['failures'] and res['status'] == 'ok':
